@@ -18,6 +18,7 @@
    R6  member access on maps / any    m.key |-> m["key"];  e.key (e any) |-> T["key"] with T, _ := e.(map[string]any) hoisted
    R7  user-defined range enumerators   iterator-function and Next() styles, every loop-variable form; judged by executing
    R8  inline closure calls             arguments evaluated once in order, body once, return = values of the call; judged by executing
+   R9  tuple types                      components by ordinal, X_i or name |-> the field X_i; tuple literal / cast |-> struct literal
    R5  big-number literals           written value v  |->  an expression whose value is exactly v:
          integers in int64 range big.NewInt(v), beyond it SetString(decimal, 10) on a new big.Int;
          rationals big.NewRat(a, b) when both fit, new(big.Rat).SetFrac(A, B) otherwise
@@ -170,14 +171,36 @@ R8Points == {[rule |-> "inline", np |-> np, variadic |-> va, nvar |-> nv, nres |
 NArgs(p) == IF p.variadic THEN p.np - 1 + p.nvar ELSE p.np
 R8Lower(p) == [argevals |-> NArgs(p), returns |-> IF p.body = "early" THEN 2 ELSE 1]
 
+(* ---------- R9: tuple types ---------- *)
+\* A tuple type is the struct type struct{X_0 T0; ..; X_n-1 Tn-1} (Package.NewTuple); with names, the i-th field can also be
+\* reached by its own name (a virtual field).  Everything lowers to that ordinary struct:
+\*   t.0 / t.X_0 / t.name (value or assignment target)  |->  t.X_i        on a value, a defined type over it, a pointer to it
+\*   (a0, .., an-1) as a T (TupleLit)                  |->  T{a0, .., an-1}
+\*   (a0, .., an-1) without a type                     |->  struct{X_0 D0; ..}{a0, ..}   with Di the default type of ai
+\*   T(a0, .., an-1) for a defined tuple type T (cast)  |->  T{a0, .., an-1};   T()  |->  T{}
+TupShapes == {<<"int">>, <<"int", "string">>, <<"string", "int", "S">>}
+TupHolders == {"anon", "named", "ptr"}
+TupAccess(wn) == {"ord", "X"} \cup (IF wn THEN {"name"} ELSE {})
+R9Points == {[rule |-> "tuple", op |-> "lit", shape |-> sh, holder |-> h, wn |-> wn, acc |-> "", idx |-> 0, nargs |-> Len(sh)] :
+                sh \in TupShapes, h \in {"anon", "named"}, wn \in BOOLEAN}
+            \cup {[rule |-> "tuple", op |-> "infer", shape |-> sh, holder |-> "anon", wn |-> FALSE, acc |-> "", idx |-> 0, nargs |-> Len(sh)] : sh \in TupShapes}
+            \cup UNION {{[rule |-> "tuple", op |-> "cast", shape |-> sh, holder |-> "named", wn |-> wn, acc |-> "", idx |-> 0, nargs |-> n] :
+                          n \in {0, Len(sh)}, wn \in BOOLEAN} : sh \in TupShapes}
+            \cup UNION {UNION {{[rule |-> "tuple", op |-> o, shape |-> sh, holder |-> h, wn |-> wn, acc |-> a, idx |-> i, nargs |-> 0] :
+                          o \in {"val", "ref"}, h \in TupHolders, a \in TupAccess(wn), i \in 1..Len(sh)} : wn \in BOOLEAN} : sh \in TupShapes}
+Ordinal(i) == CASE i = 1 -> "X_0" [] i = 2 -> "X_1" [] i = 3 -> "X_2"
+R9Lower(p) == IF p.op \in {"val", "ref"} THEN [form |-> "selector", sel |-> Ordinal(p.idx), elem |-> p.shape[p.idx]]
+              ELSE [form |-> "literal", sel |-> "", elem |-> "", nelems |-> p.nargs,
+                    typeform |-> IF p.op = "infer" \/ p.holder = "anon" THEN "struct" ELSE "name"]
+
 (* ---------- the catalogue as a state space ---------- *)
 VARIABLE pt
-Points == R1Points \cup R2Points \cup R3Points \cup R4Points \cup R5Points \cup R6Points \cup R7Points \cup R8Points
+Points == R1Points \cup R2Points \cup R3Points \cup R4Points \cup R5Points \cup R6Points \cup R7Points \cup R8Points \cup R9Points
 Init == pt \in Points
 Next == UNCHANGED pt
 Lowered == CASE pt.rule = "bti" -> R1Lower(pt) [] pt.rule = "boolcast" -> R2Lower(pt) [] pt.rule = "optional" -> R3Lower(pt)
              [] pt.rule = "alias" -> R4Lower(pt) [] pt.rule = "member" -> R6Lower(pt) [] pt.rule = "enum" -> R7Lower(pt)
-             [] pt.rule = "inline" -> R8Lower(pt) [] OTHER -> R5Lower(pt)
+             [] pt.rule = "inline" -> R8Lower(pt) [] pt.rule = "tuple" -> R9Lower(pt) [] OTHER -> R5Lower(pt)
 BindOnce == pt.rule = "bti" =>
               /\ Cardinality({i \in 1..Len(Lowered.args) : Lowered.args[i].k = "recv"}) = 1
               /\ Lowered.args[1].k = "recv"
@@ -190,5 +213,12 @@ PlainGo == /\ (pt.rule = "boolcast" => Lowered.form \in {"const", "closure"})
            /\ (pt.rule = "bti" /\ pt.mode = "autoprop" => Len(pt.r.uargs) = 0)
 \* an access needs a temporary exactly for every step that starts from a value of type any
 HoistCount == pt.rule = "member" => (Lowered.temps = 0) = (pt.base = "map" \/ (pt.base = "mapany" /\ pt.steps = 1))
+\* every way of naming the i-th component of a tuple denotes the same ordinal field, and a tuple literal / cast has either all
+\* components or none
+TupleOrdinal == pt.rule = "tuple" =>
+                  IF pt.op \in {"val", "ref"}
+                  THEN \A q \in R9Points : (q.op \in {"val", "ref"} /\ q.shape = pt.shape /\ q.idx = pt.idx) =>
+                                               (R9Lower(q).sel = Lowered.sel /\ R9Lower(q).elem = pt.shape[pt.idx])
+                  ELSE Lowered.nelems \in {0, Len(pt.shape)} /\ (Lowered.nelems = 0 => pt.op = "cast")
 Emit == PrintT(ToJson([pt |-> pt, low |-> Lowered]))
 =============================================================================
